@@ -132,3 +132,69 @@ theorem whileE_counter_le_measure {σ} (g : σ → Bool) (b : σ → Except Err 
         omega
 
 end Exetera
+
+namespace Exetera
+
+/-- chunked loops: if every successful iteration lowers the measure by at least `c` or ends the loop, an `.ok` run needs at
+    most `⌈μ s / c⌉` iterations (stated without division: any `m` with `μ s ≤ m * c`) -/
+theorem whileE_tighten_scaled {σ} (g : σ → Bool) (b : σ → Except Err σ) (Inv : σ → Prop) (μ : σ → Nat) (c : Nat)
+    (pos : ∀ s, Inv s → g s = true → 0 < μ s)
+    (step : ∀ s s', Inv s → g s = true → b s = .ok s' → Inv s' ∧ (μ s' + c ≤ μ s ∨ g s' = false)) :
+    ∀ (n : Nat) (s s' : σ), Inv s → whileE g b n s = .ok s' → ∀ m, μ s ≤ m * c → whileE g b m s = .ok s' := by
+  intro n
+  induction n with
+  | zero =>
+    intro s s' _ hr m _
+    cases hg : g s with
+    | true => simp [whileE, hg] at hr
+    | false => simp [whileE, hg] at hr; subst hr; cases m <;> simp [whileE, hg]
+  | succ n ih =>
+    intro s s' hI hr m hm
+    cases hg : g s with
+    | false => simp [whileE, hg] at hr; subst hr; cases m <;> simp [whileE, hg]
+    | true =>
+      cases hbs : b s with
+      | error e => simp [whileE, hg, hbs] at hr
+      | ok s1 =>
+        obtain ⟨hI1, hdec⟩ := step s s1 hI hg hbs
+        have hp := pos s hI hg
+        simp only [whileE, hg, hbs, if_true] at hr
+        cases m with
+        | zero => simp at hm; omega
+        | succ m =>
+          simp only [whileE, hg, hbs, if_true]
+          rcases hdec with hd | hd
+          · have hmul : (m + 1) * c = m * c + c := Nat.succ_mul _ _
+            exact ih s1 s' hI1 hr m (by omega)
+          · have h1 : whileE g b n s1 = .ok s1 := by cases n <;> simp [whileE, hd]
+            rw [h1] at hr
+            cases hr
+            cases m <;> simp [whileE, hd]
+
+end Exetera
+
+namespace Exetera
+
+/-- partial-correctness rule: what every successful iteration preserves holds of the final state of an `.ok` run -/
+theorem whileE_invariant {σ} (g : σ → Bool) (b : σ → Except Err σ) (P : σ → Prop)
+    (step : ∀ s s', P s → g s = true → b s = .ok s' → P s') :
+    ∀ (n : Nat) (s s' : σ), P s → whileE g b n s = .ok s' → P s' := by
+  intro n
+  induction n with
+  | zero =>
+    intro s s' hP hr
+    cases hg : g s with
+    | true => simp [whileE, hg] at hr
+    | false => simp [whileE, hg] at hr; subst hr; exact hP
+  | succ n ih =>
+    intro s s' hP hr
+    cases hg : g s with
+    | false => simp [whileE, hg] at hr; subst hr; exact hP
+    | true =>
+      cases hbs : b s with
+      | error e => simp [whileE, hg, hbs] at hr
+      | ok s1 =>
+        simp only [whileE, hg, hbs, if_true] at hr
+        exact ih s1 s' (step s s1 hP hg hbs) hr
+
+end Exetera
